@@ -485,6 +485,9 @@ func (fi *FileInfo) getTrailer() (Dict, error) {
 		}
 		if xrefStream != nil {
 			xref, err := fi.Read(xrefStream)
+			if IsReadError(err) {
+				return nil, err
+			}
 			if err == nil {
 				stm, ok := xref.(*Stream)
 				if ok && stm.Dict["Root"] != nil {
@@ -497,6 +500,9 @@ func (fi *FileInfo) getTrailer() (Dict, error) {
 		trailer, err := fi.readTrailer(sect)
 		if err == nil {
 			return trailer, nil
+		}
+		if sect.TrailerPos != 0 && IsReadError(err) {
+			return nil, err
 		}
 
 		// TODO(voss): method 3: Try to collect all the pieces to build
